@@ -201,4 +201,14 @@ PROPS = {
         level_note="Trusted: Lean kernel; Model/Meta.lean renders meta.go/secretbox.go by hand (checked differentially); x/crypto/nacl/secretbox and crypto/rand are dependencies: secretbox.Open's verdict is computed by the harness and given to the model as an oracle. The bit-flip sweep is a TEST of the wrapper wiring, not a proof of authenticity.",
         assumptions=["INT-CTXT and IND-CPA of XSalsa20-Poly1305; unpredictability/non-repetition of crypto/rand nonces"],
     ),
+    "C20": dict(
+        props_module="Ucan.Props.C20",
+        streams=["immut"],
+        extra=[dict(name="racecheck", pkg="./cmd/racecheck", build_flags=["-race"], timeout=600,
+                    what="read-only workload of the immut stream on shared tokens from 8 goroutines under the Go race detector (a TEST of sampled schedules, supporting evidence only)")],
+        technique="Lean 4 proofs: frame theorem for every modelled read-only operation, repeatability, and — for arbitrary schedules of threads whose steps never write shared memory — that shared memory stays unchanged and every step sees the initial state (induction over the schedule); tied by before/after snapshots of the observable token state for every insertion order of the keys, and by concurrent versus alone results; race detector run as supporting test (PARTIAL: the Go memory model is not modelled)",
+        level_text="PARTIAL. Proved: C20_frame (no read-only operation changes the token's argument/metadata key order or values), C20_repeatable, C20_iter_order_stable, C20_schedule_shared and C20_schedule_step_input (for EVERY interleaving of read-only threads the shared state is unchanged and each step reads the initial state, so each thread computes what it computes alone and no two steps conflict), C20_ops_are_readonly_steps. Go: for every insertion order of ≤ 4 (5 thorough) argument keys × 3 metadata orders × 7 read-only operations on constructed and decoded invocations and their root delegation, the Iter() order afterwards and the operation's output order are compared with the model; every operation from 8 goroutines on the same tokens must return what it returns alone; the same workload runs under `go build -race`.",
+        level_note="Trusted: Lean kernel; Model/Immut.lean lists the token memory that read-only methods touch (the shared Keys slices and value maps) and renders each method as a state transformer — which methods exist and what they touch is tied differentially, not proved. NOT exhibited by the model: the Go memory model (visibility, tearing, compiler reordering); the race detector and the 8-goroutine runs are tests of sampled schedules.",
+        assumptions=["the Go memory model is outside the model; data-race freedom is argued from the empty write footprint (proved on the model) plus race-detector runs (tests)"],
+    ),
 }
